@@ -341,7 +341,7 @@ def gen_cases(rng, tier):
 # building implementation objects
 # ---------------------------------------------------------------------------
 NPDT = {'int': np.int64, 'float': np.float64, 'bool': np.bool_}
-HIST_MODES = ['setitem', 'setitem', 'iadd', 'isub', 'imul', 'iand', 'ior', 'ixor']
+HIST_MODES = ['sibling', 'sibling', 'setitem', 'setitem', 'iadd', 'isub', 'imul', 'iand', 'ior', 'ixor']
 
 
 def build_mask(m, shape):
